@@ -224,6 +224,7 @@ def order_envs(vars_, consts, premises):
 
 def order_rule(rep, fname, E, J, N, m, sz, lt, where, axes, line, tier):
     """J: list of components (result, outs...) ; axes: active axes; the others were specialised away"""
+    has_derived = [False]
     zero = T.const_fp(lt, 0)
     tmaxbits = 0x7f7fffff if lt == 'float' else 0x7fefffffffffffff
     TMAX = T.const_fp(lt, tmaxbits); NTMAX = T.fneg(TMAX)
@@ -306,6 +307,26 @@ def order_rule(rep, fname, E, J, N, m, sz, lt, where, axes, line, tier):
             if st == 'U': pinned[TF[k].id] = Fraction(10 ** 6 + 1)
             if st != 'G': pinned[TB[k].id] = Fraction(10 ** 6 + 2)
         extra = [l for l in leaves if l.op != 'const' and l not in vars_ and l.id not in pinned]
+        # a compared value that is an ordered value times a positive constant (a tolerance factor 1 + eps): in the order abstraction it
+        # sits infinitesimally further from zero (c > 1) or nearer to it (c < 1) than the value itself - a realisable ordering (take the
+        # other values far apart), so a disagreement with the oracle found there is a counterexample; no disagreement there proves nothing
+        derived = []
+        for l in list(extra):
+            lm = l; negd = False
+            if l.op == 'fneg' and l.args[0].op == 'fmul': lm = l.args[0]; negd = True
+            if lm.op == 'fmul' and len(lm.args) == 2:
+                cs_ = [a for a in lm.args if a.op == 'const']; vs_ = [a for a in lm.args if a.op != 'const' or a is TMAX or a is NTMAX]
+                if negd and len(vs_) >= 1:
+                    # -(V * c) = (-V) * c
+                    vs_ = [NTMAX if a is TMAX else TMAX if a is NTMAX else None for a in vs_]
+                    if None in vs_: continue
+                    if len(cs_) == 2: cs_ = [a for a in lm.args if a is not TMAX and a is not NTMAX]
+                if len(cs_) == 2 and not negd: vs_ = [a for a in lm.args if a is TMAX or a is NTMAX]; cs_ = [a for a in lm.args if a not in vs_]
+                if len(cs_) == 1 and len(vs_) == 1 and (vs_[0] in vars_ or vs_[0].id in pinned or vs_[0] is TMAX or vs_[0] is NTMAX):
+                    cv = T.const_value(cs_[0])
+                    if not isinstance(cv, str) and cv > 0 and cv != 1:
+                        derived.append((l, vs_[0], 1 if cv > 1 else -1)); extra.remove(l)
+        if derived: has_derived[0] = True
         if extra:
             rep.ob('%s<%s>#order%s' % (fname, E, ''.join('xyz'[k] for k in axes)), 'R14.order', UNDECIDED, 'unexpected compared value %s' % T.show(extra[0], 3)[:120], where); return
         consts = list({l.id: l for l in leaves if l.op == 'const' and l.ty != 'i1' and l is not TMAX and l is not NTMAX}.values())
@@ -317,6 +338,9 @@ def order_rule(rep, fname, E, J, N, m, sz, lt, where, axes, line, tier):
         BIG = Fraction(10 ** 6)
         for env in order_envs(vars_, consts, prem):
             env[TMAX.id] = BIG; env[NTMAX.id] = -BIG; env.update(pinned)
+            for l_, v_, away in derived:
+                rv_ = env[v_.id]; r0_ = env[zero.id]
+                env[l_.id] = rv_ + Fraction(away, 16) * (1 if rv_ > r0_ else -1 if rv_ < r0_ else 0)
             total += 1
             mm = {}
             got = ordd.ev(comps[0], env, mm)
@@ -373,6 +397,8 @@ def order_rule(rep, fname, E, J, N, m, sz, lt, where, axes, line, tier):
                 if not any(matches(outs[1], c) for c in cx):
                     bad = 'ordering %s: exit = (%s), expected the max face of an axis attaining min tb' % (desc(), ', '.join(T.show(x, 4)[:80] for x in outs[1])); break
         if bad: break
+    if has_derived[0] and not bad:
+        rep.ob('%s<%s>#order-%s' % (fname, E, ''.join('xyz'[k] for k in axes)), 'R14.order', UNDECIDED, 'a compared value is an ordered value scaled by a constant: no disagreement with the slab oracle where the scaled value stays next to the original, other orderings not explored', where); return
     rep.ob('%s<%s>#order-%s' % (fname, E, ''.join('xyz'[k] for k in axes)), 'R14.order', VIOLATED if bad else HOLDS,
            bad or '%d weak orderings x guard regimes (%d regimes): result and reported points equal the slab oracle' % (total, len(regimes)), where,
            sample='%d orderings' % total)
